@@ -16,7 +16,9 @@ RULE = ("(1) Hypothesis token streams (balanced trees and free sequences) over t
         "Oracle: output is an order-preserving subsequence of the very same token objects, unchanged; every removed token is an attribute-less StartTag "
         "or an EndTag for which vf/ref/optionaltags.py (the standard's rules) allows omission given its immediate neighbours. (3) conforming documents: "
         "parse(serialize(filtered)) == parse(serialize(unfiltered)). Non-trivial = the stream contains at least one omittable-name tag; distinct = distinct "
-        "(type, namespace-class, name, has-attrs) sequence.")
+        "(type, namespace-class, name, has-attrs) sequence. (4) serializer level: conforming documents rendered by HTMLSerializer with sanitize / strip_whitespace / "
+        "alphabetical options, once with and once without omit_optional_tags; both outputs are read by the reference lexer, the omitted one must be the full one minus tags, "
+        "and each missing tag must satisfy the same reference rules between its neighbours in the final markup.")
 ASSUMPTIONS = ["Characters tokens never start or end with whitespace and names are non-empty (what tree walkers emit; C11 checks that)",
                "'no more content in the parent element' is read as: the next token is an end tag or the stream ends",
                "vf/ref/optionaltags.py transcribes the June-2020 'Optional tags' section"]
@@ -51,6 +53,40 @@ def _snap(tokens):
     return [dict(t, data=dict(t["data"])) if isinstance(t.get("data"), dict) else dict(t) for t in tokens]
 
 
+def _judge_removed(tokens, kept, nontrivial):
+    """every token with kept[i] false must be one the standard allows to omit between its neighbours -> (failing Verdict | None, known finding | None)"""
+    known = None
+    for i, t in enumerate(tokens):
+        if kept[i]:
+            continue
+        prev = tokens[i - 1] if i > 0 else None
+        nxt = tokens[i + 1] if i + 1 < len(tokens) else None
+        if t["type"] not in ("StartTag", "EndTag"):
+            return Verdict("fail", "removed a %s token" % t["type"], "removed-non-tag", nontrivial=nontrivial), known
+        if t["type"] == "StartTag" and t["data"]:
+            return Verdict("fail", "removed a start tag with attributes: %s" % short(t), "removed-with-attrs", nontrivial=nontrivial), known
+        if not ref.may_omit(t, prev, nxt, prev_removed=(i > 0 and not kept[i - 1])):
+            # recorded defects the repository's own (pinned) tests demand; exact triggers only
+            if (t["type"] == "EndTag" and t["name"] == "tfoot" and ref.is_html(t) and nxt is not None and nxt["type"] == "StartTag"
+                    and nxt["name"] == "tbody" and ref.is_html(nxt) and active("C13-tfoot-before-tbody")):
+                known = known or "C13-tfoot-before-tbody"
+                continue
+            if (t["type"] == "EndTag" and t["name"] == "p" and ref.is_html(t) and nxt is not None and nxt["type"] in ("StartTag", "EmptyTag")
+                    and nxt["name"] in ("datagrid", "dialog", "dir") and ref.is_html(nxt) and active("C13-p-before-legacy-names")):
+                known = known or "C13-p-before-legacy-names"
+                continue
+            what = "[%s] removed between [%s] and [%s]" % (_desc(t), _desc(prev) if prev else "start of stream",
+                                                            _desc(nxt) if nxt else "end of stream")
+            if not ref.is_html(t):
+                bucket = "removed-foreign"
+            elif t["name"] not in OMIT:
+                bucket = "removed-not-omittable-name"
+            else:
+                bucket = "removed-not-allowed:%s:%s" % (t["type"], t["name"])
+            return Verdict("fail", what + " - the standard does not allow omitting it there", bucket, nontrivial=nontrivial), known
+    return None, known
+
+
 def check_stream(tokens):
     before = _snap(tokens)
     try:
@@ -72,35 +108,9 @@ def check_stream(tokens):
     for i, t in enumerate(tokens):
         if t != before[i]:
             return Verdict("fail", "token %d was modified: %s -> %s" % (i, short(before[i]), short(t)), "token-modified", nontrivial=nontrivial)
-    known = None
-    for i, t in enumerate(tokens):
-        if kept[i]:
-            continue
-        prev = tokens[i - 1] if i > 0 else None
-        nxt = tokens[i + 1] if i + 1 < len(tokens) else None
-        if t["type"] not in ("StartTag", "EndTag"):
-            return Verdict("fail", "removed a %s token" % t["type"], "removed-non-tag", nontrivial=nontrivial)
-        if t["type"] == "StartTag" and t["data"]:
-            return Verdict("fail", "removed a start tag with attributes: %s" % short(t), "removed-with-attrs", nontrivial=nontrivial)
-        if not ref.may_omit(t, prev, nxt, prev_removed=(i > 0 and not kept[i - 1])):
-            # recorded defects the repository's own (pinned) tests demand; exact triggers only
-            if (t["type"] == "EndTag" and t["name"] == "tfoot" and ref.is_html(t) and nxt is not None and nxt["type"] == "StartTag"
-                    and nxt["name"] == "tbody" and ref.is_html(nxt) and active("C13-tfoot-before-tbody")):
-                known = known or "C13-tfoot-before-tbody"
-                continue
-            if (t["type"] == "EndTag" and t["name"] == "p" and ref.is_html(t) and nxt is not None and nxt["type"] in ("StartTag", "EmptyTag")
-                    and nxt["name"] in ("datagrid", "dialog", "dir") and ref.is_html(nxt) and active("C13-p-before-legacy-names")):
-                known = known or "C13-p-before-legacy-names"
-                continue
-            what = "[%s] removed between [%s] and [%s]" % (_desc(t), _desc(prev) if prev else "start of stream",
-                                                            _desc(nxt) if nxt else "end of stream")
-            if not ref.is_html(t):
-                bucket = "removed-foreign"
-            elif t["name"] not in OMIT:
-                bucket = "removed-not-omittable-name"
-            else:
-                bucket = "removed-not-allowed:%s:%s" % (t["type"], t["name"])
-            return Verdict("fail", what + " - the standard does not allow omitting it there", bucket, nontrivial=nontrivial)
+    bad, known = _judge_removed(tokens, kept, nontrivial)
+    if bad is not None:
+        return bad
     sig = sig64(tuple(_desc(t) for t in tokens))
     if known:
         return Verdict("known", finding=known, nontrivial=nontrivial, sig=sig)
@@ -118,7 +128,87 @@ def build(case_tokens):
     return out
 
 
+# --- serializer level: the filter inside HTMLSerializer, after the other filters the serializer installs ------------------------------
+_LEX_VOID = frozenset("area base br col embed hr img input link meta param source track wbr basefont bgsound frame keygen".split())
+SER_OPTS = [{"sanitize": True}, {"sanitize": True, "strip_whitespace": True}, {"sanitize": True, "alphabetical_attributes": True, "quote_attr_values": "always"},
+            {"strip_whitespace": True}, {"sanitize": True, "minimize_boolean_attributes": False, "use_trailing_solidus": True}]
+
+
+def lex_tokens(markup):
+    """the rendered markup as walker-format tokens, read by the reference lexer (HTML content only; raw-text states follow the start tags)"""
+    from vf.ref.tokenizer import RefTokenizer, normalize_newlines
+    tok = RefTokenizer(normalize_newlines(markup))
+    out = []
+    while True:
+        t = tok.next_token()
+        if t[0] == "eof":
+            return out
+        if t[0] == "chars":
+            if out and out[-1]["type"] == "Characters":
+                out[-1]["data"] += t[1]
+            else:
+                out.append({"type": "Characters", "data": t[1]})
+        elif t[0] == "start":
+            out.append({"type": "EmptyTag" if t[1] in _LEX_VOID else "StartTag", "name": t[1], "namespace": HTML_NS, "data": {(None, k): v for k, v in t[2]}})
+            if t[1] in ("title", "textarea"):
+                tok.state = "rcdata"
+            elif t[1] in ("style", "xmp", "iframe", "noembed", "noframes"):
+                tok.state = "rawtext"
+            elif t[1] == "script":
+                tok.state = "script_data"
+        elif t[0] == "end":
+            out.append({"type": "EndTag", "name": t[1], "namespace": HTML_NS})
+        elif t[0] == "comment":
+            out.append({"type": "Comment", "data": t[1]})
+        elif t[0] == "doctype":
+            out.append({"type": "Doctype", "name": t[1]})
+
+
+def check_serializer_doc(case):
+    """The property's first clause observed where the serializer applies the filter: the tags missing from render(omit_optional_tags=True)
+    relative to render(omit_optional_tags=False), other options equal, must be omittable between the neighbours they have in the
+    final markup (so the filter has to see the tokens as the other configured filters leave them)."""
+    import warnings
+    from html5lib.serializer import HTMLSerializer
+    from vf import h5
+    from vf.gen import conforming as G
+    from vf.props.c07 import noscript_text_trigger
+    doc, opts = case["doc"], dict(case["opts"])
+    if noscript_text_trigger(doc):
+        return Verdict("excluded", finding="noscript text written raw by the serializer (recorded under C07)")
+    names = set(n[1] for n in G.walk_nodes(doc) if n[0] == "e")
+    if names & {"svg", "math", "plaintext"}:
+        return Verdict("excluded", finding="foreign content (the lexer-level view has no namespaces)")
+    tree, _ = h5.parse(G.writer(doc), builder=case.get("walker", "etree"), full_tree=True)
+    with warnings.catch_warnings():
+        warnings.simplefilter("ignore")
+        full = HTMLSerializer(omit_optional_tags=False, **opts).render(h5.walk(tree, case.get("walker", "etree")))
+        omitted = HTMLSerializer(omit_optional_tags=True, **opts).render(h5.walk(tree, case.get("walker", "etree")))
+    a, b = lex_tokens(full), lex_tokens(omitted)
+    kept = [False] * len(a)
+    j = 0
+    for i, t in enumerate(a):
+        if j < len(b) and b[j] == t:
+            kept[i] = True
+            j += 1
+    nontrivial = not all(kept)
+    if j != len(b):
+        return Verdict("fail", "render(omit_optional_tags=True) is not render(omit_optional_tags=False) minus some tags: token %s has no counterpart; options %s\nfull    %s\nomitted %s"
+                       % (short(b[j]), opts, short(full, 300), short(omitted, 300)), "serializer:not-subsequence", nontrivial=True)
+    bad, known = _judge_removed(a, kept, nontrivial)
+    if bad is not None:
+        bad.what = "serializer options %s: %s\nfull    %s\nomitted %s" % (opts, bad.what, short(full, 300), short(omitted, 300))
+        bad.bucket = "serializer:" + bad.bucket
+        return bad
+    sig = sig64(omitted, sorted(opts.items()))
+    if known:
+        return Verdict("known", finding=known, nontrivial=nontrivial, sig=sig)
+    return Verdict("pass", nontrivial=nontrivial, sig=sig, classes=["serializer-level"])
+
+
 def check_case(case):
+    if case.get("kind") == "serdoc":
+        return check_serializer_doc(case)
     if case.get("kind") == "doc":
         return check_doc(case)
     return check_stream(build(case["tokens"]))
@@ -239,6 +329,7 @@ def shards(tier):
     try:
         from vf.gen import conforming  # noqa
         out += [{"kind": "docs", "n": 250 if quick else 8000} for _ in range(4)]
+        out += [{"kind": "serdocs", "n": 250 if quick else 8000} for _ in range(2)]
     except ImportError:
         pass
     return out
@@ -272,6 +363,14 @@ def run_shard(desc, seed, tier):
                     n += 1
         acc.extra["triples_enumerated"] = n
         acc.exhaustive = desc["stride"] == 1
+    elif kind == "serdocs":
+        from vf.gen import conforming
+
+        def fn(x):
+            doc, k, walker = x
+            case = {"kind": "serdoc", "doc": doc, "opts": SER_OPTS[k], "walker": walker}
+            acc.add(case, check_case(case))
+        drive(st.tuples(conforming._doc_strategy(30), st.integers(0, len(SER_OPTS) - 1), st.sampled_from(["etree", "dom"])), fn, desc["n"], seed)
     else:
         from vf.gen import conforming
         conforming.run_optional_tags_docs(acc, desc["n"], seed)
@@ -283,7 +382,7 @@ def finish(cov, total, tier):
 
 
 def shrink_extra(case, fails):
-    if case.get("kind") != "doc":
+    if case.get("kind") not in ("doc", "serdoc"):
         return case
     from vf.gen import conforming
 
